@@ -54,6 +54,7 @@ class FnSpec:
         self.source = None
         self.drops = []       # (start_regex, end_regex): statements removed (prologue the verifier cannot reach)
         self.signature = None  # replacement signature (free variables of the kept body bound as parameters)
+        self.truncate = None  # (regex, tail): everything from the line of the first match to the end of the body is dropped, `tail` closes the fn
         self.covered_elsewhere = False  # its obligation is registered by the unit that owns the included file
         self.closure_of = None  # (outer fn path): extract `let <name> = |params| -> Ret { body };` from inside it as a fn
 
@@ -163,6 +164,11 @@ def parse_spec(path):
                 if not m2:
                     raise SpecError("bad @drop line: %s" % raw)
                 cur_fn.drops.append((m2.group(1), m2.group(2)))
+            elif kw == "@truncate_at":
+                flush(); m2 = re.match(r"/(.*)/\s*=>\s?(.*)$", rest)
+                if not m2:
+                    raise SpecError("bad @truncate_at line: %s" % raw)
+                cur_fn.truncate = (m2.group(1), m2.group(2))
             elif kw == "@signature":
                 flush(); cur_fn.signature = rest
             elif kw == "@header":
@@ -502,6 +508,18 @@ def extract_fn(src, msk, fs, log):
         text = text[:a] + text[b:]
         import hashlib
         rlog.append("%s: DROPPED %d lines /%s/../%s/ (sha1 %s)" % (fs.name, dropped.count("\n"), rs, re_, hashlib.sha1(dropped.encode()).hexdigest()[:10]))
+    if fs.truncate:
+        rgx, tail = fs.truncate
+        m1 = re.search(rgx, text)
+        if not m1:
+            raise AnchorLost("@truncate_at /%s/ no longer matches in %s" % (rgx, fs.name))
+        a = text.rfind("\n", 0, m1.start()) + 1
+        b = text.rstrip().rfind("}")
+        dropped = text[a:b]
+        import hashlib
+        rlog.append("%s: DROPPED the rest of the body from /%s/ on (%d lines, sha1 %s); closed with `%s`" % (
+            fs.name, rgx, dropped.count("\n"), hashlib.sha1(dropped.encode()).hexdigest()[:10], tail))
+        text = text[:a] + "        " + tail + "\n    " + text[b:]
     if fs.signature:
         mskS = L.mask(text)
         fk = re.search(r"\bfn\s+%s\b" % re.escape(name), mskS).start()
